@@ -849,7 +849,13 @@ class SyncObj(object):
             funcID, args, newKwArgs = command
             kwargs.update(newKwArgs)
 
-        return self._idToMethod[funcID](*args, **kwargs)
+        try:
+            return self._idToMethod[funcID](*args, **kwargs)
+        except Exception:
+            # The entry is committed, so it is consumed (on every node alike) even if the method raises;
+            # otherwise the node would retry it forever and never apply anything after it.
+            logger.exception('replicated method raised an exception')
+            return None
 
     def __onMessageReceived(self, node, message):
 
